@@ -73,6 +73,10 @@ RULE = (
     '< 32; EMNIST id within 600 of a range boundary; agreement case with >=1 '
     'EOS target and a plan that is not `perfect`; model batch >= 2 rows with a '
     'non-identity permutation. distinct = distinct canonical case JSON.')
+RULE += (
+    ' '
+    'Later widenings: train-loss row independence with per-row scale / shift; LM predictions '
+    'with a common shift that makes every logit negative.')
 ASSUMPTIONS = [
     'the download layer is out of scope: preprocessors are called on generated '
     'raw examples; in task_pairing `load_split` of the four dataset modules and '
